@@ -94,7 +94,7 @@ class RealReduction:
             self.counter = self.init = Counting(INITS[init])
         else:
             self.init = INITS[init]
-        sub = T if sp['sub'] == 'T' else 'k'
+        sub = {'T': T, 'k': 'k', 'klist': ('k', [T])}[sp['sub']]
         form, op = sp['form'], OPS[sp['op']]
         self.spec = None
         if form == 'Fold':
@@ -330,7 +330,7 @@ def rand_row(rng):
     if wrap == 'plain' and rng.random() < 0.3:
         cells.append({'cls': 'dict', 'items': [[{'k': 'str', 's': 'k'}, root]]})
         root = {'k': 'ref', 'a': len(cells)}
-        sub = 'k'
+        sub = rng.choice(['k', 'klist'])
     form = rng.choice(['Fold', 'Fold', 'Sum', 'Flatten', 'Flatten', 'Merge', 'flatten', 'flatten', 'merge', 'Count'])
     sp = dict(form=form, sub=sub, init='int', op='iadd', levels=1, lazy=False)
     if form == 'Fold':
@@ -413,14 +413,14 @@ def consts(**kw):
 UNIVERSES = {
     'quick': [
         ('all', consts(MaxLen=2, Outers=tla_set(['list', 'gen', 'dict']))),
-        ('tuple+subspec', consts(MaxLen=1, Outers=tla_set(['tuple', 'list']), Subs=tla_set(['k']),
+        ('tuple+subspec', consts(MaxLen=1, Outers=tla_set(['tuple', 'list']), Subs=tla_set(['k', 'klist']),
                                  Families=tla_set(['nums', 'seqs', 'dicts', 'bad']))),
     ],
     'thorough': [
         ('all', consts(MaxLen=3, Families=tla_set(['nums', 'seqs', 'dicts', 'bad', 'keys']),
                        Outers=tla_set(['list', 'gen', 'dict']))),
         ('deep', consts(MaxLen=2, Families=tla_set(['deep']), Outers=tla_set(['list', 'tuple', 'gen']))),
-        ('tuple+subspec', consts(MaxLen=2, Outers=tla_set(['tuple', 'list']), Subs=tla_set(['k']))),
+        ('tuple+subspec', consts(MaxLen=2, Outers=tla_set(['tuple', 'list']), Subs=tla_set(['k', 'klist']))),
     ],
 }
 MUT_UNIVERSE = consts(MaxLen=2, Families=tla_set(['seqs', 'dicts', 'deep']), Outers=tla_set(['list']),
@@ -431,7 +431,10 @@ MUTANTS = [('init_once', 'MC_C15_mut_indep', 'InvIndependent'),
            ('merge_into_first', 'MC_C15_mut_frame', None),
            ('lazy_extra_level', 'MC_C15_mut_lazy', 'InvLazyEager'),
            ('init_once', 'MC_C15', None),
-           ('count_bad_init', 'MC_C15', None)]
+           ('count_bad_init', 'MC_C15', None),
+           ('sub_in_try', 'MC_C15', 'InvValue')]
+MUT_SUB_UNIVERSE = consts(MaxLen=1, Families=tla_set(['nums']), Outers=tla_set(['list']), Subs=tla_set(['klist']),
+                          Forms=tla_set(['Sum', 'Count']), Levels='{1}')
 
 
 def main(tier, seed):
@@ -440,8 +443,9 @@ def main(tier, seed):
     try:
         todo = [dict(label=label, module='MC_C15', cfg='MC_C15', constants=cs, dump=True, workers=8, heap='6g')
                 for label, cs in UNIVERSES[tier]]
-        muts = MUTANTS if tier == 'thorough' else MUTANTS[:2]
-        todo += [dict(label='mutant %s' % m, module='MC_C15', cfg=cfg, constants=dict(MUT_UNIVERSE, RMutant='"%s"' % m),
+        muts = MUTANTS if tier == 'thorough' else MUTANTS[:2] + MUTANTS[-1:]
+        todo += [dict(label='mutant %s' % m, module='MC_C15', cfg=cfg,
+                      constants=dict(MUT_SUB_UNIVERSE if m == 'sub_in_try' else MUT_UNIVERSE, RMutant='"%s"' % m),
                       expect=law, mutant=True, workers=2, heap='2g') for m, cfg, law in muts]
         for job, res, path in jobs.run(todo, parallel=4):
             label = job['label']
@@ -476,7 +480,8 @@ def main(tier, seed):
         '"extend" (by name, on a list), a first-writer-wins callable; custom inits (non-empty starts): lambda: 5, lambda: [0], '
         "lambda: 'x', lambda: (0,), lambda: Fraction(1, 2)",
         'flatten(levels=0) only without a spec (documented domain is positive levels; with spec=... the code returns '
-        'the un-specced target), negative levels not exercised; the subspec is T or one key lookup',
+        'the un-specced target), negative levels not exercised; the subspec is T, one key lookup, or a key lookup '
+        "followed by a list spec ('k', [T]) that fails with UnregisteredTarget on a non-iterable value",
         'exceptions are compared by class (TypeError / ValueError / AttributeError / FoldError), never by message',
         'laziness itself (nothing pulled before consumption) is the subject of C17; here a lazy result is judged by list(result)',
         'sets and user-defined iterables / registered types are outside the universe',
